@@ -929,11 +929,12 @@ def compute_correlations_nt(
                 continue
             ft_max = ft.max()
             if (ft_max > last_times).any():
-                lt = last_times[last_times >= ft_max]
+                keep = last_times >= ft_max
+                lt = last_times[keep]
                 if len(lt) == 0:
                     continue
                 last_times = lt
-                inds = sch_indices[i][-1][-len(lt):]
+                inds = sch_indices[i][-1][keep]
                 sch_indices[i][-1] = inds
             sch_indices[i] = tuple(sch_indices[i])
 
